@@ -44,6 +44,17 @@ static Agc::Result<T> _process(AgcImpl& agc, const base_array<T>& x) {
 }
 
 //------------------------------------------------------------------------------------------
+Agc::Agc(const Agc& rhs)
+  : _d{std::make_shared<AgcImpl>(*rhs._d)} {
+}
+
+Agc& Agc::operator=(const Agc& rhs) {
+    if (this != &rhs) {
+        _d = std::make_shared<AgcImpl>(*rhs._d);
+    }
+    return *this;
+}
+
 Agc::Agc(real_t target_level, real_t max_gain, int average_len, real_t t_rise, real_t t_fall) {
     _d = std::make_shared<AgcImpl>();
     DSPLIB_ASSERT(average_len > 0, "average_len must be greater 0");
